@@ -191,11 +191,75 @@ def install():
     at._MetaAbstractArray.__instancecheck_str__ = wrapped
 
 
+_stack_out = None
+_tids = {}
+
+
+def _tid():
+    import threading
+    i = threading.get_ident()
+    if i not in _tids:
+        _tids[i] = len(_tids) + 1
+    return _tids[i]
+
+
+def install_stack_events():
+    """push / pop of checking contexts, wherever the storage functions are bound (so a module that imported them by
+    name is covered too), plus one event per finished test with what is left behind"""
+    global _stack_out
+    import sys
+    import threading
+    from jaxtyping import _storage as st
+    d = os.environ.get("VERIF_TRACE_DIR")
+    if not d:
+        return
+    _stack_out = open(os.path.join(d, f"stack_{os.getpid()}.ndjson.trace"), "a")
+    lock = threading.Lock()
+
+    def depth():
+        return len(getattr(st._shape_storage, "memo_stack", []))
+
+    def emit(ev):
+        with lock:
+            _stack_out.write(json.dumps(ev, separators=(",", ":")) + "\n")
+    o_push, o_pop = st.push_shape_memo, st.pop_shape_memo
+
+    def push(arguments):
+        r = o_push(arguments)
+        emit({"ev": "push", "th": _tid(), "depth": depth()})
+        return r
+
+    def pop():
+        r = o_pop()
+        emit({"ev": "pop", "th": _tid(), "depth": depth()})
+        return r
+    for m in list(sys.modules.values()):
+        if getattr(m, "__name__", "").startswith("jaxtyping"):
+            for k, v in list(vars(m).items()):
+                if v is o_push:
+                    setattr(m, k, push)
+                elif v is o_pop:
+                    setattr(m, k, pop)
+    install_stack_events.emit = emit
+    install_stack_events.depth = depth
+
+
+def pytest_runtest_logreport(report):
+    if _stack_out is not None and report.when == "teardown":
+        from jaxtyping import _storage as st
+        tp = getattr(st, "_treepath_storage", None)
+        install_stack_events.emit({"ev": "test_end", "test": report.nodeid, "th": _tid(), "depth": install_stack_events.depth(),
+                                   "flatten": bool(st.get_treeflatten_memo()), "label": getattr(tp, "value", None) is not None})
+
+
 def pytest_configure(config):
     if os.environ.get("JAXTYPING_VERIF") == "1":
         install()
+        install_stack_events()
 
 
 def pytest_unconfigure(config):
     if _out is not None:
         _out.close()
+    if _stack_out is not None:
+        _stack_out.close()
